@@ -180,6 +180,47 @@ func c11Check(ctx *vfCtx, c c11Case) {
 			ctx.Fail("C11/"+algo+"/new/run-dependent", "ResolveConflictsNew gives a different state on a repeated run: %s", c10Diff(p, grIDs(got), grIDs(base)))
 		}
 	}
+	// the same events as separately parsed copies (state sets loaded independently share no PDU
+	// values): the result is a function of the events, not of the identity of the Go values
+	fresh := func(in []PDU) ([]PDU, bool) {
+		impl, err := GetRoomVersion(RoomVersion(version))
+		if err != nil {
+			return nil, false
+		}
+		out := make([]PDU, 0, len(in))
+		for _, e := range in {
+			var cp PDU
+			var perr error
+			if vfCatch(ctx, "C11/"+algo+"/copy", func() {
+				if vtraits[version].Format == 1 {
+					cp, perr = impl.NewEventFromTrustedJSON(append([]byte(nil), e.JSON()...), false)
+				} else {
+					cp, perr = impl.NewEventFromTrustedJSONWithEventID(e.EventID(), append([]byte(nil), e.JSON()...), false)
+				}
+			}) || perr != nil || cp == nil {
+				return nil, false
+			}
+			out = append(out, cp)
+		}
+		return out, true
+	}
+	if !ctx.Failed() {
+		var sets [][]PDU
+		okc := true
+		for _, st := range p.Sets {
+			f, ok := fresh(st)
+			okc = okc && ok
+			sets = append(sets, f)
+		}
+		if fa, ok := fresh(auth); ok && okc {
+			ctx.Class("separately-parsed-copies")
+			if got, ok := resolve(sets, fa); ok {
+				if ids := strings.Join(grIDs(got), ","); ids != baseIDs {
+					ctx.Fail("C11/"+algo+"/new/copy-dependent", "ResolveConflictsNew gives a different state when every state set holds its own parsed copies of the events: %s", c10Diff(p, grIDs(got), grIDs(base)))
+				}
+			}
+		}
+	}
 	// deprecated entry points
 	flat := c11Flatten(p.Sets)
 	var dep0 string
@@ -204,6 +245,28 @@ func c11Check(ctx *vfCtx, c c11Case) {
 			dep0 = ids
 			c11WellFormed(ctx, "deprecated", algo, p, [][]PDU{flat}, got)
 			continue
+		}
+		if i == c.Perms && !ctx.Failed() {
+			// and once more with every list entry a separately parsed copy
+			var concat []PDU // the state sets one after the other, agreed events once per set
+			for _, st := range c11Shuffle(ch, p.Sets) {
+				concat = append(concat, st...)
+			}
+			if fe, ok1 := fresh(concat); ok1 {
+				if fa, ok2 := fresh(a); ok2 {
+					var got2 []PDU
+					if vfCatch(ctx, "C11/"+algo+"/deprecated", func() {
+						got2, rerr = ResolveConflicts(RoomVersion(version), fe, fa, vfUserIDForSender, isRejected)
+					}) {
+						return
+					}
+					if rerr == nil {
+						if ids2 := strings.Join(grIDs(got2), ","); ids2 != dep0 {
+							ctx.Fail("C11/"+algo+"/deprecated/copy-dependent", "ResolveConflicts (deprecated) gives a different state when the list entries are separately parsed copies: %s", c10Diff(p, grIDs(got2), strings.Split(dep0, ",")))
+						}
+					}
+				}
+			}
 		}
 		if ids != dep0 {
 			ctx.Fail("C11/"+algo+"/deprecated/order-dependent", "ResolveConflicts (deprecated) gives a different state for a permutation of the same input: %s", c10Diff(p, grIDs(got), strings.Split(dep0, ",")))
